@@ -298,7 +298,8 @@ def _tx(props_file, theorems, comps, level_text, extra_note=""):
             "assumptions": _TX_ASSUME}
 
 PROPS["C04"] = _tx("C04", ["C04_delivery_is_final", "C04_no_integrity_failure_after_success",
-                           "C04_step_changes_filestore_only_when_ending", "C04_filestore_changes_at_most_once"], ["recv"],
+                           "C04_step_changes_filestore_only_when_ending", "C04_filestore_changes_at_most_once",
+                           "C04_late_file_data_ignored", "C04_late_eof_only_acknowledged"], ["recv"],
     "Proof on the receive-transaction model for every operation sequence: once the receive-data phase is left the "
     "filestore (delivered file, effects of filestore requests) never changes again and finalisation cannot recur; a step that "
     "changes the filestore ends the data phase or the transaction, so in any history run the way the loop runs it (stopping at "
